@@ -48,14 +48,14 @@ def handle (op : String) (args : List String) : Option String :=
       let (tab, _) ← readRatList rest
       let n := lens.length + 1
       let arr := tab.toArray
-      match motionFilter lens (fun j i => arr.getD (j * n + i) 0) d a with
+      match motionFilterSteps lens (fun j i => arr.getD (j * n + i) 0) d a with
       | .error e => some (showErr e)
       | .ok ids => some (showNats ids)
   | "motionh", d :: a :: rest => do
       let d ← parseRat? d; let a ← parseRat? a
       let (lens, rest) ← readRatList rest
       let (hs, _) ← readRatList rest
-      match motionFilter lens (planarAngle hs.toArray) d a with
+      match motionFilterSteps lens (planarAngle hs.toArray) d a with
       | .error e => some (showErr e)
       | .ok ids => some (showNats ids)
   | "crop", s :: e :: rest => do
